@@ -382,6 +382,13 @@ def gen_gen(r):
         skip = r.random() < 0.2
         compact = (not skip) and isinstance(ty, P) and r.random() < 0.3
         fields.append([ty, skip, compact])
+    # the same parameter-dependent type used plainly and, later or earlier, as a compact member
+    if r.random() < 0.3:
+        k = r.randrange(np)
+        pair = [[P(k), False, False], [P(k), False, True]]
+        if r.random() < 0.5:
+            pair.reverse()
+        fields += pair
     # rustc: every parameter must be used outside self references; a skipped parameter must not need TypeInfo in a kept member
     for k, nm in enumerate(names):
         def uses(t):
@@ -400,8 +407,8 @@ def gen_gen(r):
             # ... and a kept member must not need TypeInfo of a skipped parameter (nothing else would bound it)
             if f[0].kind != 'ph' and any(isinstance(s, P) and skipped[s.k] for s in f[0].subterms()):
                 f[1] = True
-            if f[1]:
-                f[2] = False
+            # custom bounds name only `P: TypeInfo + 'static`: nothing would provide `P: HasCompact`
+            f[2] = False
     is_enum = r.random() < 0.4
     # instantiation
     inst = []
